@@ -22,9 +22,10 @@ R1(s) == RSum([i \in 1..Len(s.atoms) |-> s.atoms[i][1]], Len(s.atoms))
 Rec(s) == [r0 |-> R0(s), r1 |-> R1(s)]
 PointOut(q) == LET mu == PostMean(cx, q)  v == PostCov(cx, q, q)  ym == Ymax(pb)
                    dm == GradMean(cx, pb.kern, q)  dv == GradVar(cx, pb.kern, q) IN
-    [q |-> q, mu |-> mu, v |-> v, ymax |-> ym, ucb |-> UCB(mu, v, 2), ucb3 |-> UCB(mu, v, 3), ei |-> EI(mu, v, ym), maxvar |-> v,
+    [q |-> q, mu |-> mu, v |-> v, ymax |-> ym, ucb |-> UCB(mu, v, 2), ucb3 |-> UCB(mu, v, 3), ucb0 |-> UCB(mu, v, 0), ei |-> EI(mu, v, ym), maxvar |-> v,
      gucb |-> [a \in 1..Len(q) |-> GradUCB(Rec(dm[a]), Rec(dv[a]), v, 2)],
      gucb3 |-> [a \in 1..Len(q) |-> GradUCB(Rec(dm[a]), Rec(dv[a]), v, 3)],        \* a kappa other than the default
+     gucb0 |-> [a \in 1..Len(q) |-> GradUCB(Rec(dm[a]), Rec(dv[a]), v, 0)],        \* the boundary value kappa = 0 (pure exploitation)
      gei |-> [a \in 1..Len(q) |-> GradEI(Rec(dm[a]), Rec(dv[a]), mu, v, ym)],
      gvar |-> [a \in 1..Len(q) |-> dv[a]]]
 Next == /\ out = 0 /\ out' = 1 /\ UNCHANGED <<pb, cx>>
